@@ -42,7 +42,23 @@ def rule_ow_open(cx, rep, port):
     if port == 'py':
         mods = PY_LIBRARY_MODULES + ['rbql_main']
         sites = _open_sites(p, mods)
-        rep.require_count('open() call sites', len(sites), 8, (p.files['rbql_csv'], 0))
+        # low-level opens: os.open(path, flags[, mode])
+        low = [(m, c) for m in mods if m in p.modules for c in ast.walk(p.modules[m]) if isinstance(c, ast.Call) and dotted(c.func) == 'os.open' and len(c.args) >= 2]
+        for m, c in low:
+            flags = {dotted(x).split('.')[-1] for x in ast.walk(c.args[1]) if isinstance(x, ast.Attribute) and (dotted(x) or '').startswith('os.O_')}
+            key = '{}:{}: {}'.format(m, getattr(enclosing_func(c), 'name', '<module>'), node_text(c, 60))
+            writes = bool(flags & {'O_WRONLY', 'O_RDWR'})
+            if not writes:
+                rep.holds(key, c, 'opened read-only ({})'.format(sorted(flags)))
+                continue
+            path = c.args[0]
+            if not is_name(path, 'output_path'):
+                rep.violated(key, c, 'a file is opened for writing through `{}`, which is not the output path: a source could be modified'.format(node_text(path)))
+            elif not (flags & {'O_TRUNC', 'O_EXCL', 'O_APPEND'}):
+                rep.violated(key, c, 'the output file is opened with {} but without O_TRUNC: when it already exists and the new result is shorter, the tail of the old content stays in the file - the output of an earlier query shows up in this one'.format(' | '.join(sorted(flags))))
+            else:
+                rep.holds(key, c, 'output file opened with {}'.format(sorted(flags)))
+        rep.require_count('open() call sites', len(sites) + 2 * len(low), 8, (p.files['rbql_csv'], 0))
         for m, c in sites:
             mode = _mode_of(c)
             path = c.args[0] if c.args else None
@@ -297,6 +313,11 @@ def rule_ow_pandas(cx, rep, port='py'):
         rep.violated('dataframe access `{}`'.format(node_text(bad[0][1])), bad[0][1], 'the input dataframe is accessed through `{}`, which is not in the read-only API whitelist {}'.format(node_text(bad[0][1]), sorted(PANDAS_READONLY)))
     else:
         rep.holds('dataframe accesses', it, '{} accesses, all through {}'.format(len(uses), sorted({n.attr for m, n in uses})))
+    # rows are taken by position: `table[label]` selects *all* columns carrying that label (a frame, not a column, when a header
+    # name repeats), so a row assembled from label lookups differs from the positional row the other front ends see
+    lbl = [n for m in ms.values() for n in walk_no_nested(m) if isinstance(n, ast.Subscript) and isinstance(n.ctx, ast.Load) and dotted(n.value) in ('self.table', 'table') and not isinstance(n.slice, ast.Slice)]
+    if lbl:
+        rep.violated('dataframe label lookup `{}`'.format(node_text(lbl[0], 40)), lbl[0], 'records are assembled from label lookups `{}`: with a repeated column name the lookup returns a frame instead of a column, so the rows differ from the positional rows of the same table in every other front end'.format(node_text(lbl[0], 40)))
     # inplace keyword anywhere in the module
     inpl = [k for c in ast.walk(p.modules['rbql_pandas']) if isinstance(c, ast.Call) for k in c.keywords if k.arg == 'inplace']
     rep.decide(not inpl, 'inplace operations', p.modules['rbql_pandas'].body[0], 'no inplace= keyword in the adapter', 'an inplace dataframe operation is used')
@@ -424,7 +445,22 @@ def rule_ow_mut(cx, rep, port):
     tu = p.func(cx.engine_mod(port), 'translate_update_expression')
     t = node_text(tu, 6000)
     ok = ("'safe_set(up_fields, {}, '.format(var_info.index)" in t) if port == 'py' else ("safe_set(up_fields, {var_index}, " in t)
-    rep.decide(ok, 'generated assignments', tu, 'every UPDATE assignment is safe_set(up_fields, index, value): only the per-record copy is written', 'generated UPDATE assignments no longer write through safe_set(up_fields, ...)')
+    # every generated fragment that names the record copy does so as an argument of safe_set (on every path of the translator)
+    frags = []
+    for c_ in ast.walk(tu):
+        if isinstance(c_, ast.Call) and isinstance(c_.func, ast.Attribute) and c_.func.attr in ('append', 'push') and c_.args:
+            a_ = c_.args[0]
+            if isinstance(a_, ast.JoinedStr):
+                frags.append((''.join(str(v.value) if isinstance(v, ast.Constant) else '{}' for v in a_.values), c_))
+            elif isinstance(a_, ast.Call) and isinstance(a_.func, ast.Attribute) and a_.func.attr == 'format' and isinstance(a_.func.value, ast.Constant) and isinstance(a_.func.value.value, str):
+                frags.append((a_.func.value.value, c_))
+            elif isinstance(a_, ast.Constant) and isinstance(a_.value, str):
+                frags.append((a_.value, c_))
+    direct = [(f_, c_) for f_, c_ in frags if 'up_fields' in f_ and not f_.lstrip(' {}').startswith('safe_set(up_fields, ')]
+    if direct:
+        rep.violated('generated assignments', direct[0][1], 'a generated UPDATE assignment is `{}...`: it writes the record copy without safe_set, so an assignment to a field the record does not have silently grows the record instead of raising the bad-field error that names the record'.format(direct[0][0][:50]))
+    else:
+        rep.decide(ok, 'generated assignments', tu, 'every UPDATE assignment is safe_set(up_fields, index, value): only the per-record copy is written', 'generated UPDATE assignments no longer write through safe_set(up_fields, ...)')
 
 
 def rule_ow_fresh(cx, rep, port):
